@@ -63,6 +63,10 @@ def gen_cases(rng, tier):
         t0 = 1000
         script = "0:inv,%d:accept" % t0 + (",%d:ack" % (t0 + a) if a is not None else "") + ",%d:wait" % (t0 + 40000)
         cases.append(["x%d" % n, "c12", "uas", "-", script, "1", "ok2xx", str(t0), "-" if a is None else str(t0 + a)]); n += 1
+    # the ACK arrives while the caller of respond_success is still inside the send of the 2xx (the bytes are out, the flush has not
+    # returned): it is the awaited ACK, nothing is retransmitted
+    for linger, a in ((300, 100), (300, 299), (700, 400), (50, 10)):
+        cases.append(["x%d" % n, "c12", "uas", "linger2xx=%d" % linger, "0:inv,1000:accept,%d:ack,41000:wait" % (1000 + a), "1", "ok2xx", "1000", str(1000 + a)]); n += 1
     # ACK with a wrong CSeq is not the awaited one
     cases.append(["x%d" % n, "c12", "uas", "-", "0:inv,1000:accept,1700:ack:999,3000:ack,50000:wait", "1", "ok2xx", "1000", "3000"]); n += 1
     # ---- reliable provisional schedule
@@ -136,6 +140,11 @@ def model_case(case, impl):
     return [case[0], "c12", kind, case[7], case[8]]
 
 
+def _linger(case):
+    m = re.search(r"linger2xx=(\d+)", case[3])
+    return int(m.group(1)) if m else 0
+
+
 def _events(impl):
     # a legacy caller's INVITE branch is given the name the rules below use for it
     impl = impl.replace("|branch=invite1|", "|branch=z9hG4bKinvite1|")
@@ -155,6 +164,8 @@ def normalize_impl(case, s):
         for n, t in evs:
             if n.startswith("W:SIP/2.0_200_OK") and "cseq=314_INVITE" in n:
                 out.append("S@%d" % t)
+            elif n == "accept-result:ok" and _linger(case) and t == int(case[7]) + _linger(case) and case[8] != "-" and int(case[8]) < t:
+                out.append("D@%s" % case[8])       # respond_success can only return when its send has returned: the ACK came before that
             elif n == "accept-result:ok":
                 out.append("D@%d" % t)
             elif n.startswith("accept-result:") and "TimedOut" in n:
@@ -280,8 +291,9 @@ def oracle(case, impl):
         if got != exp:
             return ["2xx transmissions at %r, expected %r (ACK at %r)" % (got, exp, ack)]
         res = [(n, t) for n, t in evs if n.startswith("accept-result")]
-        if ack is not None and res != [("accept-result:ok", ack)]:
-            return ["respond_success result %r, expected ok at %d" % (res, ack)]
+        done = None if ack is None else max(ack, t0 + _linger(case))      # not before the send of the 2xx has returned
+        if ack is not None and res != [("accept-result:ok", done)]:
+            return ["respond_success result %r, expected ok at %d" % (res, done)]
         if ack is None and not (len(res) == 1 and "TimedOut" in res[0][0] and res[0][1] == t0 + 32000):
             return ["respond_success result %r, expected a timeout at %d" % (res, t0 + 32000)]
     if kind == "rel1xx":
